@@ -142,6 +142,28 @@ def r2(ctx):
     ctx.covered("regex cache keys of the text operators evaluated on one literal", n, distinct_keys=sorted(map(str, keys)),
                 sample={str(k): sorted(v) for k, v in keys.items()})
     ctx.floor(n, 6, "text operators evaluated for their cache key", sem.CONFORMS)
+    # the key tells two different patterns of one operator apart: `=~` is case-sensitive, so its key keeps the letter case;
+    # the wildcard operators match case-insensitively, so only a different spelling must give a different key
+    m = 0
+    for op, glob in (("Eq", True), ("Like", False), ("Rx", False), ("Ne", True), ("NotLike", False), ("NotRx", False)):
+        per = {}
+        try:
+            for lit in ("a*", "A*", "a*b"):
+                got, tr = run.run(op, conf.variant("abc"), conf.variant(lit), matched=True, is_glob=glob)
+                per[lit] = tuple(sorted(map(str, tr["cache_after"])))
+        except interp.Undecided as e:
+            continue        # reported above
+        m += 1
+        if not any(per.values()):
+            continue        # no cache on this path
+        ok = per["a*"] != per["a*b"] and (op not in ("Rx", "NotRx") or per["a*"] != per["A*"])
+        ctx.obligation(ok)
+        if not ok:
+            ctx.violation("regex_cache/key-not-injective/%s" % op, ctx.where(sem.CONFORMS),
+                          "for %s the compiled regex of the patterns `a*`, `A*`, `a*b` is stored under the keys %s: two different patterns of one query "
+                          "share a key, the second one is matched with the first one's regex%s" %
+                          (op, per, " (the regex operators are case-sensitive: the key must keep the letter case)" if op in ("Rx", "NotRx") else ""))
+    ctx.covered("cache keys of three patterns per text operator (injective where the operator distinguishes them)", m, distinct_keys=["Eq", "Like", "Rx", "Ne", "NotLike", "NotRx"], exhaustive=True)
     for key, trs in keys.items():
         ok = len(trs) <= 1
         ctx.obligation(ok)
